@@ -138,6 +138,9 @@ def worker_main(argv):
     replay_seed = argv[6] if len(argv) > 6 else None
     seed, shard, nshards = int(seed), int(shard), int(nshards)
     os.environ[GUARD] = "1"
+    import faulthandler
+
+    faulthandler.enable()
     mod = importlib.import_module(f"xv.props.{pid.lower()}")
     w = Worker(pid, tier, seed, shard, nshards)
     res = {"ok": False}
@@ -151,10 +154,19 @@ def worker_main(argv):
             n = (total + nshards - 1) // nshards
             todo = [f"{pid}/{seed}/{shard}/{i}" for i in range(n)]
         tcap = getattr(mod, "T_THOROUGH", 1500) if tier == "thorough" else getattr(mod, "T_QUICK", 75)
-        for cs in todo:
+        start = int(os.environ.get("XV_START", "0"))
+        skip = set(x for x in os.environ.get("XV_SKIP", "").split(",") if x)
+        tcap -= float(os.environ.get("XV_ELAPSED", "0"))
+        for ci, cs in enumerate(todo):
+            if ci < start or str(ci) in skip:
+                continue
             if time.time() - w.t0 > tcap:
                 w.count("stopped_by_time_cap")
                 break
+            with open(out + ".progress", "w") as pf:
+                pf.write(f"{ci} {cs}")
+            if replay_seed is None and ci % 10 == 0 and ci > start:
+                _dump(w, out + ".ckpt", dict(ok=True, next=ci))
             w.case_seed = cs
             rng = random.Random(cs)
             try:
@@ -181,6 +193,12 @@ def worker_main(argv):
         res["ok"] = True
     except Exception as e:  # setup failure etc.
         w.harness_errors.append("setup/teardown\n" + "".join(traceback.format_exception(e))[-3000:])
+    _dump(w, out, res)
+    return 0
+
+
+def _dump(w, out, res):
+    res = dict(res)
     res.update(
         evaluations=w.evaluations,
         sigs=sorted(w.sigs),
@@ -194,7 +212,6 @@ def worker_main(argv):
     with open(out + ".tmp", "w") as f:
         json.dump(_jsonable(res), f)
     os.replace(out + ".tmp", out)
-    return 0
 
 
 # --------------------------------------------------------------------------
@@ -279,21 +296,45 @@ def _run(pid, tier, a, mod, scratch, t0):
             cmd.append(replay_seed)
         log = open(os.path.join(d, "log.txt"), "w")
         procs.append((s, out, log, subprocess.Popen(cmd, cwd=d, env=env, stdout=log, stderr=subprocess.STDOUT)))
-    results, inconclusive = [], []
+    results, inconclusive, crashes = [], [], []
     for s, out, log, p in procs:
-        try:
-            p.wait(timeout=max(1, watchdog - (time.time() - t0)))
-        except subprocess.TimeoutExpired:
-            p.kill()
-            p.wait()
-            inconclusive.append(f"shard {s} watchdog")
-        log.close()
-        if os.path.exists(out):
-            with open(out) as f:
-                results.append(json.load(f))
-        else:
+        skip, respawns = [], 0
+        while True:
+            try:
+                p.wait(timeout=max(1, watchdog - (time.time() - t0)))
+            except subprocess.TimeoutExpired:
+                p.kill()
+                p.wait()
+                inconclusive.append(f"shard {s} watchdog")
+            log.close()
+            if os.path.exists(out):
+                with open(out) as f:
+                    results.append(json.load(f))
+                break
             tail = open(log.name).read()[-1500:]
+            prog = open(out + ".progress").read().split() if os.path.exists(out + ".progress") else None
+            if p.returncode is not None and p.returncode < 0 and prog and respawns < 6 and replay_seed is None:
+                # the worker was killed by a signal while running a case (e.g. SIGSEGV inside generated C)
+                crashes.append(dict(mech=f"worker-killed-by-signal-{-p.returncode}", case_seed=prog[1],
+                                    msg=f"worker process died with signal {-p.returncode} during case {prog[1]}\n{tail[-900:]}", case=None))
+                skip.append(prog[0])
+                nxt = 0
+                if os.path.exists(out + ".ckpt"):
+                    with open(out + ".ckpt") as f:
+                        ck = json.load(f)
+                    nxt = ck["next"]
+                    results.append(ck)
+                    os.remove(out + ".ckpt")
+                respawns += 1
+                env2 = dict(env, XV_START=str(nxt), XV_SKIP=",".join(skip), XV_ELAPSED=str(time.time() - t0))
+                log = open(log.name, "a")
+                cmd = [PY, "-m", "xv.worker", pid, tier, str(a.seed), str(s), str(nshards), out]
+                p = subprocess.Popen(cmd, cwd=os.path.dirname(out), env=env2, stdout=log, stderr=subprocess.STDOUT)
+                continue
             inconclusive.append(f"shard {s} produced no result (rc={p.returncode}): {tail}")
+            if replay_seed is not None and p.returncode is not None and p.returncode < 0:
+                crashes.append(dict(mech=f"worker-killed-by-signal-{-p.returncode}", case_seed=replay_seed, msg=tail[-900:], case=None))
+            break
     # ---- merge
     evaluations = sum(r["evaluations"] for r in results)
     sigs = set()
@@ -307,6 +348,7 @@ def _run(pid, tier, a, mod, scratch, t0):
             counters[k] = counters.get(k, 0) + v
         violations.extend(r["violations"])
         herrs.extend(r["harness_errors"])
+    violations.extend(crashes)
     for h in herrs[:3]:
         inconclusive.append("harness error: " + h[-1200:])
     # ---- floors (only for full runs)
@@ -384,6 +426,8 @@ def _run(pid, tier, a, mod, scratch, t0):
     print(f"[{pid}] tier={tier} seed={a.seed} cases={evaluations} distinct={len(sigs)} wall={wall:.1f}s")
     print(f"[{pid}] observed: " + ", ".join(f"{k}={v}" for k, v in summ.items()))
     if lines:
+        for r in inconclusive[:3]:
+            print(f"NOTE (also inconclusive): {r}")
         for l in lines[:15]:
             print(l)
         if len(lines) > 15:
